@@ -195,7 +195,7 @@ def _contains(outer: ast.AST, inner: ast.AST) -> bool:
     return any(x is inner for x in ast.walk(outer))
 
 
-@rule("OPT-DEREF", ["C14", "C15", "C10"], floor=4, section="3.9")
+@rule("OPT-DEREF", ["C01", "C03", "C04", "C05", "C06", "C07", "C08", "C09", "C10", "C11", "C12", "C14", "C15", "C16", "C17", "C19", "C20"], floor=4, section="3.9")
 def opt_deref(ctx: Ctx) -> List[Ob]:
     """an optional child list (`x._children`, None for leaves / after clear()) or optional parent (`x.parent`, None for top-level nodes) is not iterated / dereferenced without a test, except `self._parent._children` (a node's own parent always has a list)"""
     obs: List[Ob] = []
@@ -224,6 +224,9 @@ def opt_deref(ctx: Ctx) -> List[Ob]:
                     ok = _callers_guard(ctx, f, target.value.id)
                 # local alias tested: c = x._children; if c: ...
                 props = ["C14"] if f.qualname in ("Tree.to_dict_list", "Node.to_dict") else ["C15"] if (f.top.cls or "").startswith("Typed") else ["C10"]
+                from .own import family_props
+
+                props = sorted(set(props) | set(family_props(f)))
                 obs.append(ctx.ob("OPT-DEREF", props, f, f"{txt} {kind}", target, ok,
                                   "" if ok else f"`{txt}` is None for a node without children (e.g. the root after clear()): {kind} without a test"))
             elif isinstance(target, ast.Attribute) and target.attr == "parent" and NODE in env.types(f, target.value) and kind == "dereferenced":
